@@ -30,6 +30,12 @@ func main() {
 		cmdC04Sweep(*seed, *thorough, *dir)
 	case "c12-corr":
 		cmdC12Corr(*seed, *n, *dir)
+	case "c10-corr":
+		cmdC10Corr(*seed, *n, *dir)
+	case "c10-script":
+		cmdC10Script(*seed, *n, *dir)
+	case "probe":
+		cmdProbe(*file)
 	case "c05":
 		cmdC05(*seed, *thorough, *dir)
 	default:
